@@ -47,7 +47,7 @@ impl<'a> Tr<'a> {
         match t {
             Ty::Param(i) => format!("_{i}"),
             Ty::Assoc(_) => "<assoc>".into(),
-            Ty::Prim(Prim::Str) => format!("{a}::string::String"),
+            Ty::Prim(Prim::Str) | Ty::StrSlice => format!("{a}::string::String"),
             Ty::Prim(p) => format!("::core::primitive::{}", p.name()),
             Ty::Def(d, args) => {
                 let def = &self.prog.defs[*d];
@@ -93,6 +93,12 @@ impl<'a> Tr<'a> {
                 s.name(),
                 self.spec.root,
                 if *msb { "Msb0" } else { "Lsb0" }
+            ),
+            Ty::BitVecP(a, b) => format!(
+                "{}<{},{}>",
+                nospace(self.spec.bits_path.as_deref().unwrap_or("")),
+                self.ty(a),
+                self.ty(b)
             ),
             Ty::BitOrder(msb) => format!("{}::bitvec::order::{}", self.spec.root, if *msb { "Msb0" } else { "Lsb0" }),
             Ty::Phantom(_) => "<phantom>".into(),
